@@ -68,6 +68,7 @@ const (
 	SRegDst  = 20 // s[20:21] SDST (lane-mask result of VOP3b / VOP3 compares; dst of scalar formats)
 
 	CodeVCC   = 106
+	CodeVCCHi = 107
 	CodeLit   = 255
 	CodeSDWA  = 249
 	CodeInt1  = 129 // inline constant 1
@@ -92,9 +93,51 @@ type Variant struct {
 	// the check sets these after the first decode told it which operands the opcode has.
 	NoSrc1, NoSrc2          bool // VOP3
 	NoData0, NoData1, NoDst bool // DS, FLAT
-	VCCData                 bool // VCC is read as uniform data in this variant: it is NOT permuted with the lanes
+	VCCData                 bool // VCC is read as uniform data in this variant: on INPUT it is not permuted with the lanes
 	Src2Mask                bool // variant only meaningful for opcodes whose SRC2 is a lane mask (SRC2 = s[8:9] or VCC)
+	// Operand aliasing. VDst is the VGPR number of the vector destination (RegDst unless VDstSet), SD the SGPR
+	// number of the destination of the scalar formats (0 = SRegDst). Alias marks the variants in which a
+	// destination register is (or overlaps) a source register of the same instruction; Applies tells, from the
+	// facts of the canonical decode, whether the variant is a legal and distinct encoding for the opcode.
+	VDst    int
+	VDstSet bool // VDst is meaningful (v0 is a legal destination)
+	SD      int
+	Alias   bool
+	Applies func(*OpFacts) bool
 }
+
+// OpFacts is what the canonical decode of an opcode tells about its operands.
+type OpFacts struct {
+	DstW       int    // register count of the destination: VGPRs for the vector formats (0 = no VGPR destination), SGPRs for the scalar formats
+	SrcW       [3]int // register counts of src0..src2 (VOP*), data0/data1 (DS), data (FLAT), ssrc0/ssrc1 (scalar); 0 = absent
+	HasSDst    bool   // VOP3b, or VOP3a compare: the encoding names a lane-mask destination
+	WritesSDst bool   // probed: the handler writes that destination
+	MaskOp     bool   // SRC2 is a lane mask
+	IsLoad     bool   // DS/FLAT/SMEM with a register destination
+	Addr64     bool   // FLAT: 64-bit VGPR address pair
+	// EvenVGPRTuples: the architecture requires VGPR tuples to start at an even register (gfx90a / CDNA:
+	// llvm-mc "vgpr tuples must be 64 bit aligned"), so partially overlapping pairs cannot be encoded there
+	EvenVGPRTuples bool
+	LiteralK       bool // v_madak / v_madmk: the mandatory literal already uses the constant bus, no SGPR source is legal
+}
+
+func (va *Variant) vdst() uint32 {
+	if va.VDstSet {
+		return uint32(va.VDst)
+	}
+	return RegDst
+}
+
+func (va *Variant) sd() uint32 {
+	if va.SD != 0 {
+		return uint32(va.SD)
+	}
+	return SRegDst
+}
+
+// VDstReg / SDReg are the destination registers the encoding names.
+func (va *Variant) VDstReg() int { return int(va.vdst()) }
+func (va *Variant) SDReg() int   { return int(va.sd()) }
 
 func v(n int) int { return 256 + n }
 
@@ -182,6 +225,9 @@ func Variants(f Format) []Variant {
 	return nil
 }
 
+// AllVariants is Variants followed by the operand-aliasing variants.
+func AllVariants(f Format) []Variant { return append(Variants(f), AliasVariants(f)...) }
+
 // Encode packs one instruction (8 bytes: the second dword is the literal /
 // second microcode word). isVOP3b must be the decoder's own classification of
 // the opcode (bits 8..14 are SDST in VOP3b, ABS/OPSEL in VOP3a); compareDst
@@ -191,9 +237,9 @@ func Encode(f Format, op int, va Variant, isVOP3b bool) []byte {
 	hi = Literal
 	switch f {
 	case VOP1:
-		lo = 0x7E000000 | uint32(RegDst)<<17 | uint32(op)<<9 | uint32(va.Src0)
+		lo = 0x7E000000 | va.vdst()<<17 | uint32(op)<<9 | uint32(va.Src0)
 	case VOP2:
-		lo = uint32(op)<<25 | uint32(RegDst)<<17 | uint32(va.Src1&0xff)<<9 | uint32(va.Src0)
+		lo = uint32(op)<<25 | va.vdst()<<17 | uint32(va.Src1&0xff)<<9 | uint32(va.Src0)
 		if va.SDWA {
 			// src0=v10, dst_sel=WORD_1(5), dst_unused=PRESERVE(2), src0_sel=WORD_0(4), src1_sel=BYTE_2(2)
 			hi = uint32(RegSrc0) | 5<<8 | 2<<11 | 4<<16 | 2<<24
@@ -205,7 +251,7 @@ func Encode(f Format, op int, va Variant, isVOP3b bool) []byte {
 		if op < 256 { // compares: VDST holds an SGPR code
 			lo |= uint32(va.SDst)
 		} else {
-			lo |= uint32(RegDst)
+			lo |= va.vdst()
 		}
 		if isVOP3b {
 			lo |= uint32(va.SDst) << 8
@@ -229,7 +275,7 @@ func Encode(f Format, op int, va Variant, isVOP3b bool) []byte {
 			hi |= uint32(RegSrc1) << 16
 		}
 		if !va.NoDst {
-			hi |= uint32(RegDst) << 24
+			hi |= va.vdst() << 24
 		}
 	case FLAT:
 		lo = 0xDC000000 | uint32(op)<<18 | uint32(va.ImmOff)&0x1fff
@@ -241,20 +287,20 @@ func Encode(f Format, op int, va Variant, isVOP3b bool) []byte {
 			hi |= uint32(RegSrc0) << 8
 		}
 		if !va.NoDst {
-			hi |= uint32(RegDst) << 24
+			hi |= va.vdst() << 24
 		}
 	case SOP2:
-		lo = 0x80000000 | uint32(op)<<23 | uint32(SRegDst)<<16 | uint32(va.Src1)<<8 | uint32(va.Src0)
+		lo = 0x80000000 | uint32(op)<<23 | va.sd()<<16 | uint32(va.Src1)<<8 | uint32(va.Src0)
 	case SOP1:
-		lo = 0xBE800000 | uint32(SRegDst)<<16 | uint32(op)<<8 | uint32(va.Src0)
+		lo = 0xBE800000 | va.sd()<<16 | uint32(op)<<8 | uint32(va.Src0)
 	case SOPC:
 		lo = 0xBF000000 | uint32(op)<<16 | uint32(va.Src1)<<8 | uint32(va.Src0)
 	case SOPK:
-		lo = 0xB0000000 | uint32(op)<<23 | uint32(SRegDst)<<16 | uint32(va.ImmOff)&0xffff
+		lo = 0xB0000000 | uint32(op)<<23 | va.sd()<<16 | uint32(va.ImmOff)&0xffff
 	case SOPP:
 		lo = 0xBF800000 | uint32(op)<<16 | uint32(va.ImmOff)&0xffff
 	case SMEM:
-		lo = 0xC0000000 | uint32(op)<<18 | 1<<17 | uint32(SRegDst)<<6 | uint32(SRegBase>>1)
+		lo = 0xC0000000 | uint32(op)<<18 | 1<<17 | va.sd()<<6 | uint32(SRegBase>>1)
 		hi = uint32(va.ImmOff)
 	}
 	b := make([]byte, 8)
